@@ -501,6 +501,18 @@ pub fn run(cfg: &Cfg, rep: &mut Report) {
             }
         }
     }
+    // a level-1 postfix form directly after a level-3 postfix operator applies to that operator's result
+    for x in ["it", "ib", "a~", "[5, 6, 7]~", "[[1, 2], [3]]~", "[\"ab\", \"cd\"]~", "[(1, 2)]~", "[struct{a := 1}]~", "[g]~"] {
+        for p3 in level3 {
+            for p1 in ["[0]", "[1:]", "[0][0]", ".0", ".a", "()", "(1)", " ? int", "[0](2)", "[0].a"] {
+                ctx.template_rel(&format!("{bind}{x}{p3}{p1}"), &format!("{bind}({x}{p3}){p1}"), &format!("postfix3-then-postfix1:{}:{}", p3.trim(), p1.trim()));
+                ctx.template_rel(&format!("{bind}r := {x}{p3}{p1}; r"), &format!("{bind}r := ({x}{p3}){p1}; r"), &format!("postfix3-then-postfix1:{}:{}", p3.trim(), p1.trim()));
+            }
+            for p3b in level3 {
+                ctx.template_rel(&format!("{bind}{x}{p3}{p3b}"), &format!("{bind}({x}{p3}){p3b}"), &format!("postfix3-then-postfix3:{}:{}", p3.trim(), p3b.trim()));
+            }
+        }
+    }
     // every assignment operator is on the lowest level and groups to the right: whatever binary operator tops its
     // right-hand side, `c op= a low b` is `c op= (a low b)` (same value, same yielded value, same acceptance)
     let assigns = ["=", "+=", "-=", "*=", "/=", "%=", "**=", "&=", "|=", "^=", "<<=", ">>="];
